@@ -7,10 +7,6 @@ namespace GqlModel.SchemaBuild
 
 variable (cfg : Config)
 
-def Err.isCrash : Err → Bool
-  | .panic | .fuel => true
-  | _ => false
-
 /-! errors of the constructors and of the lazily evaluated members are ordinary errors -/
 
 theorem findSome?_pred {α β : Type} {f : α → Option β} {P : β → Prop} (h : ∀ x b, f x = some b → P b) :
@@ -41,8 +37,8 @@ theorem enumErr_noCrash {vs : List (String × Bool)} {e : Err} (h : enumErr vs =
         · cases hb; rfl
         · cases hb
 
-theorem ctorErr_noCrash {i : Nat} {e : Err} (h : ctorErr cfg i = some e) : e.isCrash = false := by
-  unfold ctorErr ctorErrT at h
+theorem ctorErrT_noCrash {t : TypeCfg} {e : Err} (h : ctorErrT t = some e) : e.isCrash = false := by
+  unfold ctorErrT at h
   split at h
   · cases h; rfl
   · split at h
@@ -52,6 +48,21 @@ theorem ctorErr_noCrash {i : Nat} {e : Err} (h : ctorErr cfg i = some e) : e.isC
         · cases h; rfl
         · cases h
     · exact enumErr_noCrash h
+    · cases h
+
+theorem ctorErr_noCrash {i : Nat} {e : Err} (h : ctorErr cfg i = some e) : e.isCrash = false := by
+  unfold ctorErr at h
+  cases hc : ctorErrT (cfg.get i) with
+  | some e' => simp only [hc, Option.some.injEq] at h; subst h; exact ctorErrT_noCrash hc
+  | none =>
+    simp only [hc, parkedOf] at h
+    split at h
+    · rename_i e' _
+      split at h
+      · cases h
+      · rename_i hne
+        cases h
+        simpa using hne
     · cases h
 
 theorem build_ne_nilPtr (t : TRef) (k : Kind) : t.build ≠ .nilPtr k := by
